@@ -15,6 +15,12 @@ type State struct {
 	heap  map[string]string
 	alloc string
 	ghost map[string]string
+	ph    *phInfo // placeholder state used while building the defining axiom of an opaque predicate
+}
+
+type phInfo struct {
+	heaps  map[string]bool
+	ghosts map[string]bool
 }
 
 func (s *State) clone() *State {
@@ -104,6 +110,10 @@ type VC struct {
 	funcRegsDone        bool
 	labels              map[string]*stateLabel
 	splitLits           []string
+	opaquePreds         map[string]*opaqueInfo
+	noSlice             bool
+	undefinedHeap       map[string]bool
+	heapAlloc           map[string]string // havoc'd heap version -> alloc bound valid for every pointer stored in it
 }
 
 type debugDef struct {
@@ -148,7 +158,48 @@ func (vc *VC) assume(pc, fact string) {
 	if fact == "true" {
 		return
 	}
+	// top-level conjunctions become separate hypotheses (finer relevance slicing)
+	if strings.HasPrefix(fact, "(and ") {
+		for _, part := range splitSexprArgs(fact[5 : len(fact)-1]) {
+			vc.assume(pc, part)
+		}
+		return
+	}
 	vc.asserts = append(vc.asserts, implies(pc, fact))
+}
+
+// splitSexprArgs splits "a (b c) d" into its top-level s-expressions.
+func splitSexprArgs(s string) []string {
+	var out []string
+	depth, start := 0, -1
+	for i, c := range s {
+		switch c {
+		case '(':
+			if depth == 0 && start < 0 {
+				start = i
+			}
+			depth++
+		case ')':
+			depth--
+			if depth == 0 {
+				out = append(out, s[start:i+1])
+				start = -1
+			}
+		case ' ', '\n':
+			if depth == 0 && start >= 0 {
+				out = append(out, s[start:i])
+				start = -1
+			}
+		default:
+			if depth == 0 && start < 0 {
+				start = i
+			}
+		}
+	}
+	if start >= 0 {
+		out = append(out, s[start:])
+	}
+	return out
 }
 
 func (vc *VC) tagsFor(c *Clause) []string {
@@ -159,9 +210,49 @@ func (vc *VC) tagsFor(c *Clause) []string {
 }
 
 func (vc *VC) oblige(kind, label string, pc, goal string, tags []string, pos token.Pos, info string) *Obligation {
-	if goal == "true" {
-		// still count trivially true obligations? skip to keep scripts few
+	// a conjunction is proved conjunct by conjunct (smaller relevant slices, more parallelism)
+	if parts := splitGoal(goal); len(parts) > 1 && kind != "canary" {
+		var last *Obligation
+		for i, g := range parts {
+			l := label
+			if l == "" {
+				l = fmt.Sprintf("part%d", i+1)
+			} else {
+				l = fmt.Sprintf("%s.%d", label, i+1)
+			}
+			last = vc.obligeOne(kind, l, pc, g, tags, pos, info)
+		}
+		return last
 	}
+	return vc.obligeOne(kind, label, pc, goal, tags, pos, info)
+}
+
+// splitGoal splits (and A B) and (=> P (and A B)) into conjunct goals.
+func splitGoal(goal string) []string {
+	if strings.HasPrefix(goal, "(and ") {
+		var out []string
+		for _, p := range splitSexprArgs(goal[5 : len(goal)-1]) {
+			out = append(out, splitGoal(p)...)
+		}
+		return out
+	}
+	if strings.HasPrefix(goal, "(=> ") {
+		args := splitSexprArgs(goal[4 : len(goal)-1])
+		if len(args) == 2 {
+			sub := splitGoal(args[1])
+			if len(sub) > 1 {
+				var out []string
+				for _, g := range sub {
+					out = append(out, implies(args[0], g))
+				}
+				return out
+			}
+		}
+	}
+	return []string{goal}
+}
+
+func (vc *VC) obligeOne(kind, label string, pc, goal string, tags []string, pos token.Pos, info string) *Obligation {
 	key := kind
 	vc.ordinals[key]++
 	name := fmt.Sprintf("%s/%s#%d", vc.name, kind, vc.ordinals[key])
@@ -200,7 +291,21 @@ func (o *Obligation) Script(produceModels bool) string {
 		b.WriteString(d)
 		b.WriteString("\n")
 	}
-	// heap well-typedness: every cell of every heap version satisfies its type invariant
+	// relevance slice of the hypotheses (sound: only drops assumptions)
+	declared := map[string]bool{}
+	for _, line := range append(append([]string{}, vc.enc.extraDecls...), vc.decls...) {
+		f := strings.Fields(line)
+		if len(f) >= 2 && (f[0] == "(declare-const" || f[0] == "(declare-fun") {
+			declared[f[1]] = true
+		}
+	}
+	goalText := o.PC + " " + o.Goal + " " + o.Extra
+	hyps := vc.asserts[:o.Prefix]
+	var rfam map[string]bool
+	if !o.Canary && !vc.noSlice {
+		hyps, rfam = sliceHyps(hyps, vc.axiomAsserts, goalText, declared)
+	}
+	// heap well-typedness: every cell of every (relevant) heap version satisfies its type invariant
 	for _, line := range append(append([]string{}, vc.enc.extraDecls...), vc.decls...) {
 		if !strings.HasPrefix(line, "(declare-const H_") {
 			continue
@@ -211,15 +316,28 @@ func (o *Obligation) Script(produceModels bool) string {
 		if i := strings.Index(hv, "!"); i >= 0 {
 			hn = hv[:i]
 		}
+		if rfam != nil && !rfam[hn] {
+			continue
+		}
 		t, ok := vc.enc.heapTypes[hn]
 		if !ok {
 			continue
 		}
 		sel := "(select " + hv + " l!t)"
+		bound := vc.heapAlloc[hv]
+		if strings.HasSuffix(hv, "!0") {
+			bound = "alloc!0"
+		}
+		if bound == "" && !vc.undefinedHeap[hv] {
+			continue // defined by stores / ite over typed versions: typing follows
+		}
 		var inv string
 		switch u := t.Underlying().(type) {
 		case *types.Slice:
 			inv = sx("valid_slice", sel)
+			if bound != "" {
+				inv = and(inv, sx("<", sx("s_arr", sel), bound))
+			}
 		case *types.Basic:
 			if u.Info()&types.IsInteger != 0 {
 				lo, hi := intRange(u)
@@ -227,17 +345,23 @@ func (o *Obligation) Script(produceModels bool) string {
 			}
 		case *types.Interface:
 			inv = implies(eq(sx("i_dyn", sel), "T_nil"), eq(sx("i_val", sel), "any_nil"))
+			if bound != "" && vc.enc.boxes["Loc"] {
+				var ptrs []string
+				for _, tn := range vc.enc.typeOrder {
+					if _, isPtr := vc.enc.typeConsts[tn].Underlying().(*types.Pointer); isPtr {
+						ptrs = append(ptrs, eq(sx("i_dyn", sel), tn))
+					}
+				}
+				if len(ptrs) > 0 {
+					inv = and(inv, implies(or(ptrs...), sx("<", sx("l_base", sx("unbox_Loc", sx("i_val", sel))), bound)))
+				}
+			}
 		case *types.Pointer, *types.Map:
-			// entry heap: every stored pointer is nil or points to an object allocated before entry
-			if strings.HasSuffix(hv, "!0") {
-				inv = or(eq(sel, nilLoc), and(sx("<", "0", sx("l_base", sel)), sx("<", sx("l_base", sel), "alloc!0")))
+			if bound != "" {
+				inv = or(eq(sel, nilLoc), and(sx("<", "0", sx("l_base", sel)), sx("<", sx("l_base", sel), bound)))
 			}
 		}
-		if sl, ok := t.Underlying().(*types.Slice); ok && strings.HasSuffix(hv, "!0") {
-			_ = sl
-			inv = and(inv, sx("<", sx("s_arr", sel), "alloc!0"))
-		}
-		if inv != "" {
+		if inv != "" && inv != "true" {
 			fmt.Fprintf(&b, "(assert (forall ((l!t Loc)) (! %s :pattern (%s))))\n", inv, sel)
 		}
 	}
@@ -246,7 +370,7 @@ func (o *Obligation) Script(produceModels bool) string {
 		b.WriteString(a)
 		b.WriteString(")\n")
 	}
-	for _, a := range vc.asserts[:o.Prefix] {
+	for _, a := range hyps {
 		b.WriteString("(assert ")
 		b.WriteString(a)
 		b.WriteString(")\n")
@@ -285,7 +409,7 @@ func (w *World) NewVC(fn *ssa.Function, fc *FuncContract) *VC {
 		edges: map[[2]int]*edge{}, blockPC: map[int]string{}, blockSt: map[int]*State{},
 		loopHead: map[int]*loopInfo{}, debugVars: map[string][]debugDef{}, ordinals: map[string]int{},
 		globals: map[*ssa.Global]int{}, callCount: map[string]int{}, params: map[string]SpecVal{}, assumed: map[string]bool{},
-		mapRanges: map[ssa.Value]*mapRange{}, usedLemmas: map[string]bool{}, usedFns: map[string]bool{}, labels: map[string]*stateLabel{}}
+		mapRanges: map[ssa.Value]*mapRange{}, usedLemmas: map[string]bool{}, usedFns: map[string]bool{}, labels: map[string]*stateLabel{}, opaquePreds: map[string]*opaqueInfo{}, heapAlloc: map[string]string{}, undefinedHeap: map[string]bool{}}
 	if fn.Pkg != nil {
 		vc.pkg = fn.Pkg.Pkg
 	} else if recv := fn.Signature.Recv(); recv != nil {
@@ -298,6 +422,10 @@ func (w *World) NewVC(fn *ssa.Function, fc *FuncContract) *VC {
 }
 
 func (vc *VC) heapGet(st *State, name string) string {
+	if st.ph != nil {
+		st.ph.heaps[name] = true
+		return "h!" + name
+	}
 	if t, ok := st.heap[name]; ok {
 		return t
 	}
@@ -309,6 +437,10 @@ func (vc *VC) heapGet(st *State, name string) string {
 }
 
 func (vc *VC) ghostGet(st *State, name string) string {
+	if st.ph != nil {
+		st.ph.ghosts[name] = true
+		return "g!" + name
+	}
 	if t, ok := st.ghost[name]; ok {
 		return t
 	}
